@@ -163,6 +163,10 @@ def gen_cases(rng, tier):
         cases.append({"kind": "fixed-dotted", "order": order, "entry": "apply_to", "resumed": False, "empty": "seqs"})
         cases.append({"kind": "fixed-dotted", "order": order, "entry": "apply_to", "resumed": True, "empty": "item", "inputs": "member"})
         cases.append({"kind": "fixed-dotted", "order": order, "entry": "call", "resumed": False, "empty": "seqs"})
+    # source names that a sloppy suffix rule mangles or merges: reached by every seed
+    for store, inputs, resumed, gz in (("sql", "str", False, ["next", "box"]), ("dir", "path", True, ["matt"]), ("sql", "member", True, []), ("dir", "dstore", False, [])):
+        cases.append({"kind": "fixed-dotted", "order": "base-first", "entry": "apply_to", "resumed": resumed, "empty": "item", "inputs": inputs, "store": store,
+                      "keys": TRICKY_NAMES, "first": ["run.trimmed", "set_t", "x.bak", "next"], "gz": gz})  # fmt: skip
     for i in range(6 if tier == "quick" else 40):
         cases.append({"kind": "real", "seed": rng.randrange(2**32), "order": ["base-first", "base-last", "shuffled"][i % 3], "inputs": ["str", "member"][i % 2]})
     return cases
@@ -245,6 +249,8 @@ def make_plan(rng, keys, steps, pattern):
     return plan
 
 
+# file names are <name>.txt: stems ending in characters of ".txt", the suffix repeated inside the name
+TRICKY_NAMES = ["next", "text", "matt", "box", "set_t", "set_x", "sofa_t", "data.tx", "tx", "ttt", "run.txt.trimmed", "run.trimmed", "x.txt.bak", "x.bak"]
 ID_VARIANTS = [None, None, "upper", "tagged", "dir-name", "dir-name"]
 
 
@@ -294,6 +300,14 @@ def make_workload(rng, n, store=None, entry=None, inputs=None, idfn="random"):
             W["keys"].reverse()
         elif order == "shuffled":
             rng.shuffle(W["keys"])
+    elif store in ("sql", "dir") and W["layout"] == "flat" and W["idfn"] is None and inputs in ("str", "path", "member", "dstore") and rng.random() < 0.4:
+        # names whose stem ends in characters of the suffix, that repeat the suffix inside, or are compressed
+        W["keyscheme"] = "tricky"
+        pool = list(TRICKY_NAMES)
+        rng.shuffle(pool)
+        W["keys"] = pool[:n] + make_ids(rng, max(0, n - len(pool)))
+        if inputs in ("str", "path"):
+            W["gz"] = [k for k in W["keys"] if k in ("next", "box", "sofa_t", "matt")][:2]
     W["payload"] = {k: "%08x" % rng.getrandbits(32) for k in W["keys"]}
     pattern = rng.choice(["mixed", "mixed", "mixed", "mixed", "all-ok", "all-fail", "single-fail"])
     if inputs in ("items", "values"):
@@ -350,8 +364,15 @@ class World:
         os.makedirs(self.indir)
         for k in W["keys"]:
             os.makedirs(os.path.dirname(self.path_of(k)), exist_ok=True)
+            text = json.dumps({"key": k, "payload": W["payload"][k]})
+            if k in W.get("gz", ()):
+                import gzip
+
+                with gzip.open(self.path_of(k), "wt") as f:
+                    f.write(text)
+                continue
             with open(self.path_of(k), "w") as f:
-                json.dump({"key": k, "payload": W["payload"][k]}, f)
+                f.write(text)
         self.count = 0
 
     def path_of(self, k):
@@ -359,7 +380,7 @@ class World:
             # key = shared file name + the directory's letter
             grp = {v: g for g, v in A.GROUPS.items()}[k[-1]]
             return os.path.join(self.indir, grp, k[:-1] + A.IN_SUFFIX)
-        return os.path.join(self.indir, k + A.IN_SUFFIX)
+        return os.path.join(self.indir, k + A.IN_SUFFIX + (".gz" if k in self.W.get("gz", ()) else ""))
 
     def inputs(self):
         """(what is handed to cogent3, [input object per key in submission order], keys in submission order)"""
@@ -866,7 +887,7 @@ def solo_outcomes(W, plan, objs, keys):
 
 def describe(W, obs, **extra):
     d = {
-        "workload": {k: W.get(k) for k in ("n", "steps", "store", "entry", "inputs", "logger", "keys", "plan", "falsy", "falsy_vals", "payload", "idfn", "layout", "keyscheme")},
+        "workload": {k: W.get(k) for k in ("n", "steps", "store", "entry", "inputs", "logger", "keys", "plan", "falsy", "falsy_vals", "payload", "idfn", "layout", "keyscheme", "gz")},
         "parallel": obs["parallel"],
         "workers": obs["workers"],
         "submitted": obs["keys"],
@@ -945,6 +966,9 @@ def check_history(res, W, obs, plan, label, prior=None, replay=None):
             mech = "C14/apply_to/input-with-own-source-not-proxied/record-without-source-aborts-run"
         elif exp.get("writer_level"):
             mech = "C14/apply_to/result-rejected-by-writer-aborts-run"
+        elif isinstance(e, ValueError) and "non-unique" in str(e) and len({store_id(W, obs, k) for k in keys}) == len(keys):
+            # the identifiers (by the harness' own rule) are all different
+            mech = "C14/apply_to/distinct-sources-reported-as-non-unique-identifiers"
         else:
             mech = exc_mechanism(f"C14/{W['entry']}/{label}", e)
         res.witness(mech, **det(error=repr(e)[:400], record_being_handled=culprit, expected=exp, records_written=sorted(written)))
@@ -1212,7 +1236,13 @@ def store_id(W, obs, key, variant="given"):
     variant = W.get("idfn") if variant == "given" else variant
     text = src_text_of(W, obs, key)
     name = os.path.basename(text)
-    stem = name[: -len(A.IN_SUFFIX)] if name.endswith(A.IN_SUFFIX) else name
+    # own rule (not cogent3's code): directory dropped; the trailing format suffix, or format + compression suffix,
+    # removed; nothing else
+    stem = name
+    for sfx in (A.IN_SUFFIX + ".gz", A.IN_SUFFIX):
+        if name.endswith(sfx):
+            stem = name[: -len(sfx)]
+            break
     if variant is None:
         return stem
     if variant == "upper":
@@ -1424,14 +1454,15 @@ def case_fixed(res, case):
 
 def case_fixed_dotted(res, case):
     """gene, gene.1, gene.2, other into the suffix-less store, in a given order: fresh run, resumed run, direct calls"""
-    keys = ["gene", "gene.1", "gene.2", "other"]
+    keys = list(case.get("keys") or ["gene", "gene.1", "gene.2", "other"])
     if case["order"] == "base-last":
         keys = keys[::-1]
+    first = set(case.get("first") or ["gene", "other"])
     W = {
-        "n": 4, "steps": ["alpha"], "store": "sql", "entry": case["entry"], "inputs": case.get("inputs", "str"), "logger": False, "keys": keys,
+        "n": len(keys), "steps": ["alpha"], "store": case.get("store", "sql"), "entry": case["entry"], "inputs": case.get("inputs", "str"), "logger": False, "keys": keys,
         "payload": {k: "%08x" % (i * 2246822519 % 2**32) for i, k in enumerate(keys)},
-        "plan": {"gene.2": {"at": 0, "mode": "empty", "variant": case.get("empty", "seqs")}, "other": {"at": 1, "mode": "exc", "variant": "KeyError"}},
-        "falsy": [], "idfn": None, "layout": "flat", "keyscheme": "dotted",
+        "plan": {keys[2]: {"at": 0, "mode": "empty", "variant": case.get("empty", "seqs")}, keys[-1]: {"at": 1, "mode": "exc", "variant": "KeyError"}},
+        "falsy": [], "idfn": None, "layout": "flat", "keyscheme": "tricky" if case.get("keys") else "dotted", "gz": case.get("gz", []),
     }  # fmt: skip
     world = World(W)
     try:
@@ -1440,7 +1471,7 @@ def case_fixed_dotted(res, case):
             obs = run_history(W, world, W["plan"])
             check_history(res, W, obs, W["plan"], "serial", replay=case)
         else:
-            o1 = run_history(W, world, {}, subset={"gene", "other"})
+            o1 = run_history(W, world, {}, subset=first)
             r1 = check_history(res, W, o1, {}, "serial", replay=case)
             if r1 is not None:
                 o2 = run_history(W, world, W["plan"], store_path=o1["store_path"])
